@@ -684,10 +684,37 @@ func c04Sheet(r *h.RNG, shapes []c04Shape, depth int) string {
 	return sb.String()
 }
 
+type c04SheetCase struct {
+	src  string
+	css2 bool
+	tag  string
+}
+
 func c04Sheets(c *Ctx) error {
 	st := c.R.StartStage("sheet", "generated stylesheets: 1-4 top-level items (rules with 1-3 selectors incl. attribute strings, case variations, combinators; @media/@supports nesting <= 2; @font-face; @keyframes; @page; @import/@charset/@namespace; comments; CDO/CDC), declarations from the decl shapes; KeepCSS2 random; checked: same sequence of grammar events, equivalent selectors/preludes, same properties and !important, every declaration value through spec.c04.holds; non-trivial = output differs from input")
 	shapes := c04Shapes()
 	n := c.N(12000, 150000)
+	var cases []c04SheetCase
+	for i := 0; i < n+len(c04FixedSheets); i++ {
+		r := c.Rng.Fork()
+		src := c04Sheet(r, shapes, 0)
+		css2 := r.Chance(30)
+		if i < len(c04FixedSheets) {
+			src = c04FixedSheets[i]
+		}
+		cases = append(cases, c04SheetCase{src: src, css2: css2})
+	}
+	err := c04RunSheets(c, st, cases, false)
+	st.End()
+	return err
+}
+
+// c04RunSheets: whole style sheets through the real code; structure of input vs output, every declaration value through
+// the per-declaration oracle spec.c04.holds.  With alone=true (long sheets) additionally every distinct declaration is
+// minified ALONE (`a{prop:value}`, fresh minifier): the value written for it inside the sheet must be the same bytes — what
+// the code does to a declaration must not depend on the declarations before it — and the declaration alone goes through model
+// and oracle like the cases of the decl stage.  At most three failing declarations and one such difference per sheet are listed.
+func c04RunSheets(c *Ctx, st *h.Stage, cases []c04SheetCase, alone bool) error {
 	type item struct {
 		src, out string
 		css2     bool
@@ -697,13 +724,21 @@ func c04Sheets(c *Ctx) error {
 	}
 	var items []item
 	var lines []string
-	for i := 0; i < n+len(c04FixedSheets); i++ {
-		r := c.Rng.Fork()
-		src := c04Sheet(r, shapes, 0)
-		css2 := r.Chance(30)
-		if i < len(c04FixedSheets) {
-			src = c04FixedSheets[i]
+	type aloneOut struct {
+		val string
+		ok  bool
+	}
+	aloneCache := map[string]aloneOut{}
+	var diffs []h.Finding // listed after the failing inputs
+	var aloneCases []c04Case
+	clip := func(s string) string {
+		if len(s) > 300 {
+			return s[:300] + "…"
 		}
+		return s
+	}
+	for _, k := range cases {
+		src, css2 := k.src, k.css2
 		out, err, crash := c04Minify(src, false, css2)
 		key := fmt.Sprintf("%q keepCSS2=%v", src, css2)
 		if crash != "" {
@@ -718,6 +753,9 @@ func c04Sheets(c *Ctx) error {
 		inEv, perr := c04Parse(src, false)
 		outEv, _ := c04Parse(out, false)
 		st.Count(key, out != src)
+		if k.tag != "" {
+			st.Tag("shape=" + k.tag)
+		}
 		if perr {
 			st.Tag("parse-error-passthrough")
 		}
@@ -732,9 +770,38 @@ func c04Sheets(c *Ctx) error {
 			continue
 		}
 		it := item{src: src, out: out, css2: css2, pairs: pairs, first: len(lines)}
+		ndiff := 0
 		for _, p := range pairs {
 			it.known = append(it.known, c04Trigger(p.prop, p.in, css2))
 			lines = append(lines, "spec.c04.holds "+h.HexS(p.prop)+" "+c04Groups(p.in)+" "+c04Groups(p.out))
+			if !alone || perr || len(p.in) == 0 {
+				continue
+			}
+			val := c04TokStr(p.in)
+			ck := fmt.Sprintf("%v %s:%s", css2, p.prop, val)
+			a, seen := aloneCache[ck]
+			if !seen {
+				asrc := "a{" + p.prop + ":" + val + "}"
+				aout, aerr, acrash := c04Minify(asrc, false, css2)
+				if aerr == nil && acrash == "" {
+					aIn, aperr := c04Parse(asrc, false)
+					aOut, _ := c04Parse(aout, false)
+					if ap, prob := c04Structure(aIn, aOut); prob == "" && !aperr && len(ap) == 1 && ap[0].prop == p.prop && c04TokStr(ap[0].in) == val {
+						a = aloneOut{c04TokStr(ap[0].out), true}
+					}
+				}
+				aloneCache[ck] = a
+				if a.ok && len(val) <= 4000 {
+					aloneCases = append(aloneCases, c04Case{prop: p.prop, value: val, css2: css2, tag: "of-long-sheet"})
+				}
+			}
+			if a.ok {
+				st.Tag("alone=compared")
+				if got := c04TokStr(p.out); got != a.val && ndiff < 1 {
+					ndiff++
+					diffs = append(diffs, h.Finding{Stage: st.Name, Kind: "diff", What: fmt.Sprintf("the value of a declaration is written differently inside the sheet than for the same declaration alone (fresh minifier, `a{…}`): %s: %q -> in the sheet %q, alone %q", p.prop, clip(val), clip(got), clip(a.val)), Input: src, Hex: h.HexS(src), Config: fmt.Sprintf("KeepCSS2=%v", css2), Impl: out})
+				}
+			}
 		}
 		items = append(items, it)
 	}
@@ -743,6 +810,7 @@ func c04Sheets(c *Ctx) error {
 		return err
 	}
 	for _, it := range items {
+		nfail := 0
 		for k, p := range it.pairs {
 			b, ok, msg := h.DecodeReply(rep[it.first+k])
 			if !ok {
@@ -760,9 +828,17 @@ func c04Sheets(c *Ctx) error {
 				st.Tag("known=" + it.known[k])
 				continue
 			}
-			c.R.Add(h.Finding{Stage: st.Name, Kind: "fail", What: fmt.Sprintf("value of %s changed: %q -> %q", p.prop, c04TokStr(p.in), c04TokStr(p.out)), Input: it.src, Hex: h.HexS(it.src), Config: fmt.Sprintf("KeepCSS2=%v", it.css2), Impl: it.out})
+			if nfail++; nfail > 3 {
+				continue
+			}
+			c.R.Add(h.Finding{Stage: st.Name, Kind: "fail", What: fmt.Sprintf("value of %s changed: %q -> %q", p.prop, clip(c04TokStr(p.in)), clip(c04TokStr(p.out))), Input: it.src, Hex: h.HexS(it.src), Config: fmt.Sprintf("KeepCSS2=%v", it.css2), Impl: it.out})
 		}
 	}
-	st.End()
+	for _, f := range diffs {
+		c04AddDiff(c, st, f)
+	}
+	if len(aloneCases) > 0 {
+		return c04RunCases(c, st, aloneCases, true)
+	}
 	return nil
 }
